@@ -465,17 +465,19 @@ def highlevel_kills(ctx, cov):
         out = []
         try:
             imgs = []
-            for i, col in enumerate([(200, 10, 10), (10, 200, 10), (10, 10, 200)]):
+            for i, col in enumerate([(200, 10, 10), (10, 200, 10), (10, 10, 200), (9, 9, 9), (8, 8, 8), (7, 7, 7), (6, 6, 6), (5, 5, 5), (4, 4, 4)]):
                 p = os.path.join(work, f"c12-hl-{i}.png")
                 Image.new("RGB", (5 + i, 4), col).save(p)
                 os.utime(p, ns=(1_700_000_000_000_000_000, 1_700_000_000_000_000_000))
                 imgs.append(p)
             X = 13
 
+            extra = {}
+
             def mk_term(path):
                 return tupimage.TupimageTerminal(out_command=common.RecStream(), out_display=common.RecStream(), in_response=open("/dev/tty", "rb", buffering=0),
                                                  id_database=path, terminal_id="hl-term", session_id="hl", config="DEFAULT", id_space="8bit", id_subspace="10:20",
-                                                 redetect_terminal=False)
+                                                 redetect_terminal=False, **extra)
 
             scenarios = [
                 ("assign_id/new", [], lambda t: t.assign_id(imgs[0], cols=2, rows=1)),
@@ -484,8 +486,15 @@ def highlevel_kills(ctx, cov):
                 ("force_id/id-holds-another-image", [("force", 0)], lambda t: t.assign_id(imgs[1], cols=2, rows=1, force_id=X)),
                 ("force_id/id-holds-another-image-uploaded-to-two-terminals", [("force", 0), ("mark", "T1"), ("mark", "T2")], lambda t: t.assign_id(imgs[1], cols=2, rows=1, force_id=X)),
                 ("force_id/same-image-again", [("force", 1), ("mark", "T1")], lambda t: t.assign_id(imgs[1], cols=2, rows=1, force_id=X)),
+                # a subspace holding more ids than max_ids_per_subspace (the limit was lowered, or ids were force-set): whatever
+                # the request evicts, it evicts in the same step in which it allocates
+                ("assign_id/subspace-over-its-limit", [("assign", i) for i in range(1, 8)], lambda t: t.assign_id(imgs[0], cols=2, rows=1), {"max_ids_per_subspace": 4}),
+                ("assign_id/subspace-at-its-limit", [("assign", i) for i in range(1, 5)], lambda t: t.assign_id(imgs[0], cols=2, rows=1), {"max_ids_per_subspace": 4}),
             ]
-            for name, init, request in scenarios:
+            for sc in scenarios:
+                name, init, request = sc[:3]
+                extra.clear()
+                extra.update(sc[3] if len(sc) > 3 else {})
                 def prepare(path):
                     for suffix in ("", "-wal", "-shm"):
                         try:
